@@ -10,6 +10,8 @@ from .. import framework as fw
 from . import C01
 
 GEN_SECTIONS = ["Tables", "Regexes", "Unicode"]
+# code-level corollaries of the leaf ties (lean/Chartparse/Tie/Compose.lean)
+LEAVES = {'TsAt': ['tsat', 'between', 'timeadd'], 'Compose': []}
 TRUSTED = [
     "Lean 4 kernel; axioms ⊆ {propext, Classical.choice, Quot.sound}",
     "hand model of the tempo-map builders and their validators; tied by differential execution with the exact exception class",
